@@ -32,6 +32,8 @@ Since the fixes abd397a (codes < 100 → `sol::FAILURE`), f454558 (infeasibility
                 inconsistent header with the problem partially populated.
 * `standalone`  without `-AMPL` and with `wantsol&1 = 0` an error is only printed on stdout (not at
                 all with `wantsol&8`), exit status 0.
+* `exportonly`  `tech:writemodelonly=<file>`: `RunFromNLFile` skips `Solve()` and `Report()`; the run ends
+                with exit status 0, no `.sol`, no message (`C09_exportonly_general`).
 * `ctorcode`    (latent) an `mp::Error` escaping to `RunBackendApp` is turned into the exit status
                 `exit_code() mod 256`, which is 0 for codes 0, 256, 512, 768.
 * `foreign`     (latent) an exception not derived from `std::exception` → `std::terminate`.
@@ -90,6 +92,7 @@ theorem C09_dims_partial (sc : Scenario) (e : Ending) (f : SolFile) (ech : Bool)
     (f.nduals = 0 ∨ f.nduals = f.ncons) ∧ (f.nprimals = 0 ∨ f.nprimals = f.nvars) := by
   cases e with
   | info => simp [conclude] at h
+  | exported a w => simp [conclude] at h
   | raised a w st r =>
     have hst : st ≠ .options := fun hh => hwin a w r (by rw [hh])
     have hsp : st ≠ .populate := fun hh => hpop a w r (by rw [hh])
@@ -147,6 +150,7 @@ theorem C09_code_class (sc : Scenario) (e : Ending) (k : Cause) (f : SolFile) (e
     codeOK sc.answer k f.code := by
   cases e with
   | info => simp [conclude] at h
+  | exported a w => simp [conclude] at h
   | raised a w st r =>
     simp only [Ending.cause, Option.some.injEq] at hk
     by_cases hr : r = .foreign
@@ -207,6 +211,7 @@ theorem C09_complete (sc : Scenario) (e : Ending) (f : SolFile) (ech : Bool)
     simp [OutPath.writable]
   cases e with
   | info => simp [conclude] at h
+  | exported a w => simp [conclude] at h
   | raised a w st r =>
     by_cases hr : r = .foreign
     · rw [hr, conclude_foreign] at h; simp at h
@@ -227,13 +232,15 @@ theorem C09_complete (sc : Scenario) (e : Ending) (f : SolFile) (ech : Bool)
 data cannot be written, the run ends with `Error: …` on stderr and exit status 1. -/
 theorem C09_write_error_is_diagnosed (sc : Scenario) (e : Ending)
     (hwant : ∀ a w, (e = .finished a w ∨ ∃ st r, e = .raised a w st r) → wantsFile a w = true)
-    (hmodel : e ≠ .info) (hh : ∀ a w st r, e = .raised a w st r → st.handlerAvailable = true)
+    (hmodel : e ≠ .info) (hne : ∀ a w, e ≠ .exported a w)
+    (hh : ∀ a w st r, e = .raised a w st r → st.handlerAvailable = true)
     (hnf : ∀ a w st, e ≠ .raised a w st .foreign)
     (hflush : sc.out.canFlush = false) :
     conclude sc e = .stderrExit 1 := by
   have ho : sc.out.writable = false := by simp [OutPath.writable, hflush]
   cases e with
   | info => exact absurd rfl hmodel
+  | exported a w => exact absurd rfl (hne a w)
   | raised a w st r =>
     have hw := hwant a w (Or.inr ⟨st, r, rfl⟩)
     have hha := hh a w st r rfl
@@ -254,6 +261,7 @@ theorem C09_stderr_partial (sc : Scenario) (e : Ending) (status : Nat)
     cannotWrite sc e = true ∧ status ≠ 0 ∧ status < 256 := by
   cases e with
   | info => simp [conclude] at h
+  | exported a w => simp [conclude] at h
   | raised a w st r =>
     by_cases hr : r = .foreign
     · rw [hr, conclude_foreign] at h; simp at h
@@ -291,6 +299,7 @@ theorem C09_crash_iff_foreign (sc : Scenario) (e : Ending) :
   · intro h
     cases e with
     | info => simp [conclude] at h
+    | exported a w => simp [conclude] at h
     | raised a w st r =>
       by_cases hr : r = .foreign
       · exact ⟨a, w, st, by rw [hr]⟩
@@ -317,6 +326,7 @@ theorem C09_stdout_only_iff (sc : Scenario) (e : Ending) :
   · rintro ⟨c, s, h⟩
     cases e with
     | info => simp [conclude] at h
+    | exported a w => simp [conclude] at h
     | raised a w st r =>
       refine ⟨a, w, ?_⟩
       by_cases hr : r = .foreign
@@ -342,11 +352,12 @@ if the header has been read and the path opens, the run ends with a `.sol` and e
 whatever happens. -/
 theorem C09_file_whenever_possible (sc : Scenario) (e : Ending)
     (hwant : ∀ a w, (e = .finished a w ∨ ∃ st r, e = .raised a w st r) → wantsFile a w = true)
-    (hmodel : e ≠ .info) (hcan : cannotWrite sc e = false)
+    (hmodel : e ≠ .info) (hne : ∀ a w, e ≠ .exported a w) (hcan : cannotWrite sc e = false)
     (hnf : ∀ a w st, e ≠ .raised a w st .foreign) :
     ∃ f ech, conclude sc e = .sol f ech := by
   cases e with
   | info => exact absurd rfl hmodel
+  | exported a w => exact absurd rfl (hne a w)
   | raised a w st r =>
     have hw := hwant a w (Or.inr ⟨st, r, rfl⟩)
     simp only [cannotWrite, Bool.or_eq_false_iff, Bool.not_eq_false'] at hcan
@@ -369,6 +380,7 @@ theorem C09_outcome_partial_end (sc : Scenario) (e : Ending) (hreg : Regular sc 
     GoodEnd sc e (conclude sc e) := by
   cases e with
   | info => simp [GoodEnd, Ending.cause, conclude]
+  | exported a w => simp [Regular] at hreg
   | finished a w =>
     simp only [Regular] at hreg
     rw [conclude_finished]
@@ -426,14 +438,14 @@ dimensions. -/
 theorem C09_success (sc : Scenario)
     (hfault : sc.fault = none) (hflags : sc.flags.all Flag.passes = true) (hstub : sc.hasStub = true)
     (hopts : (expandOpts sc.opts).all Opt.clean = true) (hobj : sc.objnoTooBig = false)
-    (hampl : sc.ampl = true) (hopen : sc.out.canOpen = true) (hflush : sc.out.canFlush = true) :
+    (hexp : sc.justExport = false) (hampl : sc.ampl = true) (hopen : sc.out.canOpen = true) (hflush : sc.out.canFlush = true) :
     run sc = .sol { code := sc.answer.code, ncons := sc.dims.ncons,
                     nduals := if sc.answer.haveDual then sc.dims.ncons else 0,
                     nvars := sc.dims.nvars,
                     nprimals := if sc.answer.havePrimal then sc.dims.nvars else 0,
                     complete := true } false := by
   simp [run, ending, faultBefore, hfault, parseFlags_passing _ _ hflags, hstub, hampl,
-    parseOpts_clean _ _ hopts, hobj, conclude, handleSolution, wantsFile, OutPath.writable, hopen, hflush]
+    parseOpts_clean _ _ hopts, hobj, hexp, conclude, handleSolution, wantsFile, OutPath.writable, hopen, hflush]
 
 /-- An offending option token (anywhere in an otherwise clean prefix) ends every run that got as
 far as the header in the option window — with the `wantsol` stored so far. -/
@@ -452,6 +464,23 @@ theorem C09_suffix_exceptions_swallowed (sc : Scenario) (r : Raise) (hr : r ≠ 
   simp only [run, ending, faultBefore, Stage.idx]
   simp [hr]
   rfl
+
+/-! ## `tech:writemodelonly` -/
+
+/-- **`exportonly`, exactly.** With `tech:writemodelonly=<file>` a run that survives everything up to and
+including the export ends without `Solve()`/`Report()`: no `.sol`, no message, exit status 0 — whatever
+the mode. -/
+theorem C09_exportonly_general (sc : Scenario) (a : Bool) (w : Nat) :
+    conclude sc (.exported a w) = .silent ∧ ¬ GoodEnd sc (.exported a w) (conclude sc (.exported a w)) := by
+  simp [conclude, GoodEnd, Ending.cause]
+
+/-- A clean `-AMPL` run with `tech:writemodelonly` ends that way. -/
+theorem C09_exportonly_run (sc : Scenario)
+    (hfault : sc.fault = none) (hflags : sc.flags.all Flag.passes = true) (hstub : sc.hasStub = true)
+    (hopts : (expandOpts sc.opts).all Opt.clean = true) (hobj : sc.objnoTooBig = false)
+    (hexp : sc.justExport = true) : run sc = .silent := by
+  simp [run, ending, faultBefore, hfault, parseFlags_passing _ _ hflags, hstub,
+    parseOpts_clean _ _ hopts, hobj, hexp, conclude]
 
 /-! ## Option files -/
 
@@ -513,7 +542,7 @@ theorem C09_optfile_unreadable_outcome (sc : Scenario) (pre post : List OptItem)
 
 /-- a small valid model: 1 constraint, 2 variables, solver answers 0 with a primal vector -/
 def scBase : Scenario :=
-  { flags := [], hasStub := true, ampl := true, opts := [], objnoTooBig := false,
+  { flags := [], hasStub := true, ampl := true, opts := [], objnoTooBig := false, justExport := false,
     dims := ⟨1, 2⟩, partialDims := ⟨0, 0⟩, out := ⟨true, true⟩, fault := none, answer := ⟨0, true, true⟩ }
 
 /-- `recsolver stub -AMPL foo=1`: `.sol` with count lines 0 0 0 0 for a 1×2 model. -/
@@ -554,6 +583,11 @@ theorem C09_counterexample_standalone :
     run { scBase with ampl := false, opts := [.tok .bad] } = .stdoutOnly 500 true ∧
     run { scBase with ampl := false, opts := [.tok (.wantsol 8), .tok .bad] } = .stdoutOnly 500 false ∧
     ¬ Good { scBase with ampl := false, opts := [.tok .bad] } (run { scBase with ampl := false, opts := [.tok .bad] }) := by decide
+
+/-- `recsolver stub -AMPL tech:writemodelonly=m.lp`: nothing is reported at all. -/
+theorem C09_counterexample_exportonly :
+    run { scBase with justExport := true } = .silent ∧
+    ¬ Good { scBase with justExport := true } (run { scBase with justExport := true }) := by decide
 
 /-- an `mp::Error(msg, 512)` from the backend's constructor: `Error: …` on stderr, exit status 0. -/
 theorem C09_counterexample_ctorcode :
